@@ -568,6 +568,149 @@ func c23Match(toks []c23Tok, cd *c23Cand) int8 {
 	return best
 }
 
+// ---------------------------------------------------------------------------
+// Diagnosis of a mismatch (used only to choose the violation key, never to
+// decide conformance): does the candidate match under a deliberately altered
+// rule that models one known root cause?
+//
+//   - c23DiagFirstSegOnly: the leading-dot rule looks only at the first segment
+//     of a path element: when that is a match-hidden wildcard which matches
+//     nothing of the component, a later wildcard without match-hidden may
+//     consume the leading ".".
+//   - c23DiagLeftmost: a * (or ** within one component) is given the leftmost
+//     position at which the run of literals and ?s that follows it fits (and,
+//     if that run ends the element, fits up to the end of the name); no other
+//     position is tried. "Fits" is meant as the implementation means it, i.e.
+//     with the first-segment-only leading-dot rule above.
+const (
+	c23DiagFirstSegOnly = iota
+	c23DiagLeftmost
+)
+
+func c23Diag(toks []c23Tok, cd *c23Cand, mode int) bool {
+	if (toks[len(toks)-1].kind == c23KSlash) != cd.trailing {
+		return false
+	}
+	n := len(cd.comps)
+	found := false
+	// does the run of fixed-length tokens from ti fit comp at pos?
+	fits := func(ti int, comp string, pos int, lead int) bool {
+		for ; ti < len(toks); ti++ {
+			t := toks[ti]
+			if t.kind == c23KLit {
+				if !strings.HasPrefix(comp[pos:], t.lit) {
+					return false
+				}
+				pos += len(t.lit)
+			} else if t.kind == c23KQ {
+				if pos >= len(comp) {
+					return false
+				}
+				r, sz := utf8.DecodeRuneInString(comp[pos:])
+				if (t.match != nil && !t.match(r)) || (pos == 0 && r == '.' && !t.hidden && lead != 1) {
+					return false
+				}
+				pos += sz
+			} else {
+				break
+			}
+		}
+		if ti == len(toks) || toks[ti].kind == c23KSlash {
+			return pos == len(comp)
+		}
+		return true
+	}
+	// lead: 0 = no token has acted at the start of this component yet, 1 = the
+	// first one was a match-hidden wildcard that matched nothing of it, 2 = other
+	var rec func(ti, ci, off, lead int)
+	dotOK := func(t c23Tok, lead int) bool {
+		return t.hidden || lead == 1
+	}
+	rec = func(ti, ci, off, lead int) {
+		if found {
+			return
+		}
+		comp := cd.comps[ci]
+		if ti == len(toks) {
+			if ci == n-1 && off == len(comp) && !cd.trailing {
+				found = true
+			}
+			return
+		}
+		t := toks[ti]
+		switch t.kind {
+		case c23KLit:
+			if strings.HasPrefix(comp[off:], t.lit) {
+				rec(ti+1, ci, off+len(t.lit), 2)
+			}
+		case c23KSlash:
+			if off != len(comp) {
+				return
+			}
+			if ci+1 < n {
+				rec(ti+1, ci+1, 0, 0)
+			} else if cd.trailing && ti == len(toks)-1 {
+				found = true
+			}
+		case c23KQ:
+			if off >= len(comp) {
+				return
+			}
+			r, sz := utf8.DecodeRuneInString(comp[off:])
+			if t.match != nil && !t.match(r) {
+				return
+			}
+			if off == 0 && r == '.' && !dotOK(t, lead) {
+				return
+			}
+			rec(ti+1, ci, off+sz, 2)
+		default:
+			committed := false
+			for {
+				comp = cd.comps[ci]
+				stop := true
+				nl := lead
+				if off == 0 && lead == 0 {
+					nl = 2
+					if t.hidden {
+						nl = 1
+					}
+				}
+				if mode == c23DiagLeftmost {
+					if committed || !fits(ti+1, comp, off, nl) {
+						stop = false
+					} else {
+						committed = true
+					}
+				}
+				if stop {
+					rec(ti+1, ci, off, nl)
+					if found {
+						return
+					}
+				}
+				if off < len(comp) {
+					r, sz := utf8.DecodeRuneInString(comp[off:])
+					if t.match != nil && !t.match(r) {
+						return
+					}
+					if off == 0 && r == '.' && !dotOK(t, lead) {
+						return
+					}
+					off += sz
+					continue
+				}
+				if t.kind != c23KSS || ci+1 >= n {
+					return
+				}
+				ci, off, lead, committed = ci+1, 0, 0, false
+			}
+		}
+	}
+	rec(0, 0, 0, 0)
+	return found
+}
+
 // global modifiers
 const (
 	c23MNone = iota
@@ -630,8 +773,18 @@ func c23Qual(toks []c23Tok, cd *c23Cand, mod int, extra, modOnly bool) string {
 	case modOnly && mod == c23MButA:
 		return "but"
 	case extra && cd.hidden:
+		// narrow key for the one known way: the element starts with a match-hidden
+		// wildcard and a later wildcard without match-hidden consumed the dot
+		if c23Match(toks, cd) == 0 && c23Diag(toks, cd, c23DiagFirstSegOnly) {
+			return "hidden:dot-consumed-by-later-wildcard-after-a-match-hidden-one"
+		}
 		return "hidden"
 	case hasM:
+		// narrow key for the one known way: the match needs a fit of a literal
+		// chunk that is not the leftmost one
+		if !extra && c23Match(toks, cd) == 2 && !c23Diag(toks, cd, c23DiagLeftmost) {
+			return "restricted-star:needs-backtracking"
+		}
 		return "restricted-star"
 	case cd.hidden:
 		return "hidden"
